@@ -12,6 +12,7 @@ LIB = {
  "C03": ("iterate-to-the-end histories: every yielded item is a reference solution not seen before, and at the end the multiset equals the reference solution set; each step runs on a solver with a longer history (blocking clause, kept nogoods)", "§6 C03"),
  "C04": ("optimise x {min,max} x {LinearSatUnsat, LinearUnsatSat} x {variable, view, fixed objective}: Optimal(s) => s is a reference solution with the reference optimum; Unsatisfiable <=> no solution; every callback incumbent is a solution", "§6 C04"),
  "C05": ("sequences of assumption solves (0-4 predicates of any kind, redundant / root-true / root-false / mutually inconsistent / directly contradictory) with and without core extraction on one solver, followed by a plain solve (non-retention); core = implied by the assumptions over the declared domains and inconsistent with the model", "§6 C05"),
+ "C06": ("library runs ending in UNSAT or an optimum with ProofLog::cp (scaffold / full / hinted), every constraint tagged, every variable named; the proof and .lits files are checked afterwards by an independent checker (own line parser): .lits maps every code; every tagged inference is checked semantically against the single tagged constraint by enumeration over its scope and the declared domains; untagged inferences must be implied by the model and the objective bounds in force (an objective-strengthening step must match an incumbent the harness saw); every nogood must be derivable by domain-aware reverse unit propagation from the steps it may use (with hints: only the hinted steps); UNSAT must be preceded by the empty nogood; an optimality conclusion must be over the objective variable, hold in the returned solution and be tight at the reference optimum. Clauses posted through the API cannot be tagged (the code documents this gap of the proof logging) and are outside the workload", "§6 C06"),
  "C07": ("one model and operation under a covering set of 8 (12 thorough) configurations (resolver x minimisation x restart policy x database regime x sorting x RNG seed x brancher); every answer is compared with the reference, hence with each other", "§6 C07"),
  "C08": ("cumulative task sets (durations/usages 0-4, usage > capacity, negative and view start times) under 6 (16 thorough) of the 144 CumulativeOptions combinations per model and random decision schedules; the solution set must equal the time-point definition for each", "§6 C08"),
  "C09": ("implied_by / reify / negation over every (half-)reifiable kind with the reification literal free, pre-fixed true or pre-fixed false; the scheduler fixes literal and variables in any order and restarts unfix them; solution set = {r false or c} / {r <=> c} / complement", "§6 C09"),
